@@ -1,7 +1,129 @@
-import VermouthModel.Proto
-open Proto
+import VermouthModel.C01
+open Proto C01
 
-/-- placeholder driver for C01: replaced when the model is written -/
-def handle (_ : Unit) (_ : List Tok) : Unit × String := ((), "bad-op")
+def pairOf (t : Tok) : Option (Int × Int) := do
+  match ← t.list? with
+  | [a, b] => pure (← a.int?, ← b.int?)
+  | _ => none
+
+def pairsOfTok (t : Tok) : Option (List (Int × Int)) := do (← t.list?).mapM pairOf
+
+def atomOf (t : Tok) : Option Atom := do
+  match ← t.list? with
+  | [k, r, rn, ch, h] => pure { key := ← k.int?, resid := ← r.int?, resname := ← rn.str?, chain := ← ch.str?,
+                                isH := (← h.int?) != 0 }
+  | _ => none
+
+def bnodeOf (t : Tok) : Option (Int × C12.Attrs) := do
+  match ← t.list? with
+  | [k, n, r, c] => pure (← k.int?, { name := ← n.optStr?, resid := ← r.optInt?, cg := ← c.optInt? })
+  | _ => none
+
+def interOf (t : Tok) : Option (String × C12.Inter) := do
+  match ← t.list? with
+  | [ty, ats, pr, v] => pure (← ty.str?, { atoms := ← ints? ats, params := ← pr.str?, version := ← v.int? })
+  | _ => none
+
+def ratOf (n d : Tok) : Option Rat := do
+  let n ← n.int?
+  let d ← d.nat?
+  if d = 0 then none else pure (mkRat n d)
+
+def weightsOf (t : Tok) : Option Dict2 := do
+  (← t.list?).mapM (fun row => do
+    match ← row.list? with
+    | [f, ws] =>
+      let ws ← (← ws.list?).mapM (fun w => do
+        match ← w.list? with
+        | [b, n, d] => pure (← b.int?, ← ratOf n d)
+        | _ => none)
+      pure (← f.int?, ws)
+    | _ => none)
+
+def mapSpecOf (t : Tok) : Option MapSpec := do
+  match ← t.list? with
+  | [nodes, edges, inters, nrexcl, weights, refs] =>
+    let ns ← (← nodes.list?).mapM bnodeOf
+    let es ← pairsOfTok edges
+    let is ← (← inters.list?).mapM interOf
+    pure { blockTo := { nodes := ns, edges := es, inters := is, nrexcl := ← nrexcl.optInt? },
+           weights := ← weightsOf weights, refs := ← pairsOfTok refs }
+  | _ => none
+
+def rawOfTok (t : Tok) : Option (Nat × List (Int × Int)) := do
+  match ← t.list? with
+  | [i, m] => pure (← i.nat?, ← pairsOfTok m)
+  | _ => none
+
+def insertSorted [Ord α] (x : α) : List α → List α
+  | [] => [x]
+  | y :: ys => if compare x y == .gt then y :: insertSorted x ys else x :: y :: ys
+
+def sortList [Ord α] (l : List α) : List α := l.foldr insertSorted []
+
+def encRat (r : Rat) : String := toString r.num ++ "/" ++ toString r.den
+
+def lexLt : List Int → List Int → Bool
+  | [], [] => false
+  | [], _ => true
+  | _, [] => false
+  | a :: as, b :: bs => a < b || (a == b && lexLt as bs)
+
+def insertBy (lt : α → α → Bool) (x : α) : List α → List α
+  | [] => [x]
+  | y :: ys => if lt y x then y :: insertBy lt x ys else x :: y :: ys
+
+def sortBy (lt : α → α → Bool) (l : List α) : List α := l.foldr (insertBy lt) []
+
+def encBead (b : Bead) : String :=
+  encList [encInt b.key, encOptStr b.name, encOptInt b.resid, encOptInt b.cg, encOptInt b.oldResid,
+           encList ((sortBy (fun a b => a < b) b.atoms).map encInt),
+           encList ((sortBy (fun (a b : Int × Rat) => a.1 < b.1) b.weights).map (fun w => encList [encInt w.1, encStr (encRat w.2)]))]
+
+def normEdge (e : Int × Int) : List Int := if e.1 ≤ e.2 then [e.1, e.2] else [e.2, e.1]
+
+def encResult (r : Result) : String :=
+  "ok " ++ encList (r.beads.map encBead) ++ " "
+    ++ encList ((sortBy lexLt (r.edges.map normEdge)).map (fun e => encList (e.map encInt))) ++ " "
+    ++ encList ((sortBy (fun (a b : String × C12.Inter) => a.1 < b.1) r.inters).map (fun ti => encList [encStr ti.1, encList (ti.2.atoms.map encInt), encStr ti.2.params])) ++ " "
+    ++ encList [encBool r.warn.overlap, encNat r.warn.garbage, encNat r.warn.disconnected,
+                encBool r.warn.unmapped, encBool r.warn.hydrogens]
+
+def mnodeOf (t : Tok) : Option MNode := do
+  match ← t.list? with
+  | [k, attrs, r] =>
+    let as ← (← attrs.list?).mapM (fun kv => do
+      match ← kv.list? with
+      | [a, b] => pure (← a.str?, ← b.str?)
+      | _ => none)
+    pure { key := ← k.int?, attrs := as, resid := ← r.optInt? }
+  | _ => none
+
+def handle (_ : Unit) (toks : List Tok) : Unit × String :=
+  let r : Option String :=
+    match toks with
+    | [Tok.str "map", atoms, edges, maps, raw] => do
+        let as ← (← atoms.list?).mapM atomOf
+        let es ← pairsOfTok edges
+        let ms ← (← maps.list?).mapM mapSpecOf
+        let rw ← (← raw.list?).mapM rawOfTok
+        match doMapping { atoms := as, edges := es } ms rw with
+        | .ok res => pure (encResult res)
+        | .error e => pure ("error " ++ e.str)
+    | [Tok.str "order", keysets] => do
+        -- only the ordering: placements given by their atom keys; answer = the processing order
+        let ks ← (← keysets.list?).mapM ints?
+        let ps : List Placement := ks.map (fun k => { molToBlock := k.map (fun a => (a, [])), block := {}, refs := [] })
+        pure (encList ((order ps).map (fun p => encList (p.atoms.map encInt))))
+    | [Tok.str "matches", mnodes, medges, pnodes, pedges] => do
+        let mn ← (← mnodes.list?).mapM mnodeOf
+        let me ← pairsOfTok medges
+        let pn ← (← pnodes.list?).mapM mnodeOf
+        let pe ← pairsOfTok pedges
+        let ms := refMatches mn me pn pe
+        let canon := sortBy lexLt (ms.map (fun m => (sortBy (fun (a b : Int × Int) => a.1 < b.1) m).flatMap (fun p => [p.1, p.2])))
+        pure (encList (canon.map (fun m => encList (m.map encInt))))
+    | _ => none
+  ((), r.getD "bad-op")
 
 def main : IO Unit := runDriver handle ()
